@@ -29,6 +29,7 @@ from . import cache_backend as cb
 from . import core
 from .core import MachineryError
 
+HEAP = "3g"      # the state spaces are small; a modest JVM heap keeps TLC out of the way of the OOM killer on a shared machine
 CTX_VALS = ["u", "w"]
 ALL_OPS = ["render", "renderdef", "invbody", "invdef", "invclosure", "inv", "set", "get", "toggle"]
 DEVS = ["regions-by-invalidate", "ns-sanitised", "inline-bf"]
@@ -138,8 +139,9 @@ def finding_worlds():
 
 
 def probe_worlds():
-    """Signature shapes of CACHED sections on which the wrapper generated by codegen.write_cache_decorator already fails on
-    the unchanged tree (so the random worlds leave them to uncached sections): name -> (world, signature, what)."""
+    """Signature shapes of CACHED sections on which the wrapper generated by codegen.write_cache_decorator used to fail
+    (F72, F73: repaired in /repo).  Kept as positive checks -- the first render must show exactly what the model, i.e. the
+    uncached section, shows -- and as detectors of a regression: name -> (world, signature, what)."""
     kwo = world([tmpl(["r", ".", "html"], items=[item(1, pos=["A", "B"], kw=[["s", "V"]])],
                       secs=[sec("foo", "def", sig=[P("a"), P("r", "var"), P("s", "kwo")])])], passctx=False)
     kwo2 = world([tmpl(["r", ".", "html"], items=[item(1, pos=["A"], kw=[["s", "V"]])],
@@ -203,9 +205,8 @@ SCALAR = ("pos", "def", "kwo", "kwd")
 
 
 def gen_sig(rng, cached, page=False):
-    """A legal signature of up to 4 parameters.  On CACHED sections two shapes are left to the dedicated probes of
-    check() because the unchanged code already fails on them (see PROBES): a keyword-only parameter without default,
-    and a defaulted positional parameter together with *args."""
+    """A legal signature of up to 4 parameters, for cached and uncached sections alike (the two shapes of probe_worlds()
+    included, since the cache wrapper passes positional parameters by position and keyword-only ones by name)."""
     if page:
         # the page body is called without actuals: every parameter needs a default (or is *args)
         n = rng.choice([0, 0, 0, 1, 2, 3])
@@ -214,8 +215,6 @@ def gen_sig(rng, cached, page=False):
         if "var" not in kinds:
             kinds = ["def" if k == "kwd" else k for k in kinds]
         kinds.sort(key=["def", "var", "kwd"].index)
-        if cached and "var" in kinds:
-            kinds = [k for k in kinds if k != "def"]
         names = {"def": iter(["pa", "pb", "pd", "pe"]), "var": iter(["pr"]), "kwd": iter(["ps", "pt", "pu", "pw"])}
     else:
         n = rng.choice([0, 1, 1, 1, 2, 2, 3, 3, 4])
@@ -225,10 +224,6 @@ def gen_sig(rng, cached, page=False):
         nko = rng.randint(0, n) if var else 0; n -= nko
         kw = 1 if n and rng.random() < 0.6 else 0
         kinds = ["pos"] * npos + ["def"] * ndef + ["var"] * var + [rng.choice(["kwo", "kwd"]) for _ in range(nko)] + ["kw"] * kw
-        if cached:
-            kinds = ["kwd" if k == "kwo" else k for k in kinds]
-            if "var" in kinds:
-                kinds = ["pos" if k == "def" else k for k in kinds]
         names = {"pos": iter(["a", "b", "a2", "b2"]), "def": iter(["d", "e"]), "var": iter(["r"]), "kwo": iter(["s", "t", "w", "s2"]),
                  "kwd": iter(["f", "g", "h", "f2"]), "kw": iter(["k"])}
     dflt = iter(["D1", "D2", "D3", "D4"])
@@ -606,8 +601,13 @@ class Counter:
         return self.n[name]
 
 
+class OpTimeout(BaseException):
+    """Raised by the watchdog of Driver.op (BaseException: template code must not swallow it)."""
+
+
 class Driver:
     """Real templates of one world sharing one backend."""
+    dead = False
 
     def __init__(self, w, backend, hid, scratch):
         from mako.template import Template
@@ -739,6 +739,30 @@ class Driver:
 
     # ---- operations (total: an unexpected exception is an observation)
     def op(self, o):
+        """One operation under a watchdog: mutated code may block for ever (e.g. a cached callable re-entering
+        dogpile's per-key lock under its own key); a hang is an observation ("exc:OpTimeout"), after which the
+        history is abandoned (self.dead) because locks may be left held."""
+        import signal
+
+        def on_alarm(signum, frame):
+            raise OpTimeout()
+        old = signal.signal(signal.SIGALRM, on_alarm)
+        signal.setitimer(signal.ITIMER_REAL, core.tscale(5))
+        try:
+            return self._op(o)
+        except OpTimeout:
+            self.dead = True
+            e = dict(o)
+            if o["ev"] in ("render", "renderdef"):
+                e["out"], e["execs"] = [["exc:OpTimeout", 0, "", [], 0]], self.execs()
+            self.rec.take()
+            e.update(calls=[{"op": "exc:OpTimeout", "ns": [], "key": ["", ""], "kw": []}], hasstore=False, store=[])
+            return e
+        finally:
+            signal.setitimer(signal.ITIMER_REAL, 0)
+            signal.signal(signal.SIGALRM, old)
+
+    def _op(self, o):
         ev, t = o["ev"], o["t"]
         tp = self.tm[t - 1]
         e = dict(o)
@@ -790,7 +814,7 @@ class Driver:
                 e["en"] = bool(tp.cache_enabled)
             else:
                 raise MachineryError("unknown operation %r" % (o,))
-        except MachineryError:
+        except (MachineryError, OpTimeout):
             raise
         except Exception as ex:  # noqa
             exc = "exc:" + type(ex).__name__
@@ -962,7 +986,12 @@ def random_history(rng, w, n_ops, allow_set):
 
 def record(w, ops, backend, hid, scratch):
     d = Driver(w, backend, hid, scratch)
-    return [d.op(o) for o in ops], d.texts
+    ev = []
+    for o in ops:
+        ev.append(d.op(o))
+        if d.dead:
+            break
+    return ev, d.texts
 
 
 # --------------------------------------------------------------------------- the check
@@ -1035,7 +1064,7 @@ def check(run):
     # vacuity: TLC's coverage statistics on a one-template world in which every action is enabled (their cost grows with
     # the size of the worlds literal: 20 s on the worlds below, so the big runs go without)
     if thorough:       # (in the quick tier vacuity is judged from the operations of the replayed behaviours, see op_counts below)
-        res = run.tlc("MC_Cache", cfg(DEVS, ALL_OPS, WEAK, 2), name="mc-cover", coverage=True, timeout=600,
+        res = _tlc(run, "MC_Cache", cfg(DEVS, ALL_OPS, WEAK, 2), name="mc-cover", coverage=True, timeout=600,
                       extra_files={"CacheProgs.tla": progs_module([mcw[1]])}, workers=4)
         if res.violated:
             run.spec_violation(res, "TLC: %s violated in Cache.tla (mc-cover)" % res.violated)
@@ -1053,7 +1082,7 @@ def check(run):
         ("mc-ascoded-allops", DEVS, WEAK, ALL_OPS, d_all, both if thorough else "{FALSE}"),
         ("mc-ascoded-xkw", DEVS, WEAK, ["render", "inv", "set", "get"], d_all, "{TRUE}"),     # explicit **kw on get/set/invalidate
     ]:
-        res = run.tlc("MC_Cache", cfg(devs, ops, invs, depth, xvals=xv), name=name, timeout=1500,
+        res = _tlc(run, "MC_Cache", cfg(devs, ops, invs, depth, xvals=xv), name=name, timeout=1500,
                       extra_files={"CacheProgs.tla": pm if thorough or not name.endswith("-xkw") else progs_module([mcw[1]])},
                       workers=None if thorough else 8)
         if res.violated:
@@ -1064,11 +1093,11 @@ def check(run):
     for inv, w in fw.items():
         pmf = progs_module([w])
         # the intended design satisfies the strict invariant on this world ...
-        res = run.tlc("MC_Cache", cfg([], small_ops, [inv], 5), name="dev-%s-intended" % inv, extra_files={"CacheProgs.tla": pmf}, workers=4)
+        res = _tlc(run, "MC_Cache", cfg([], small_ops, [inv], 5), name="dev-%s-intended" % inv, extra_files={"CacheProgs.tla": pmf}, workers=4)
         if res.violated:
             run.spec_violation(res, "TLC: %s violated in the intended design" % inv)
         # ... the model that follows the code does not: confirm on the real code before calling it a finding
-        res = run.tlc("MC_Cache", cfg(DEVS, small_ops, [inv], 5), name="dev-%s-ascoded" % inv, extra_files={"CacheProgs.tla": pmf}, workers=1)
+        res = _tlc(run, "MC_Cache", cfg(DEVS, small_ops, [inv], 5), name="dev-%s-ascoded" % inv, extra_files={"CacheProgs.tla": pmf}, workers=1)
         if res.violated != [inv]:
             raise MachineryError("expected exactly %s to be violated by the code-shaped model, got %s" % (inv, res.violated))
         ce = [st for _, st in res.counterexample()]
@@ -1087,10 +1116,11 @@ def check(run):
                           "the real code does not follow the code-shaped model on the %s counterexample (deviation no longer present?)" % inv,
                           {"backend": "rec", "world": w, "ops": mm.get("history"), "mismatch": mm})
 
-    # ------------------------------------------------------------------ 2b. signature shapes the cache wrapper cannot pass on
+    # ------------------------------------------------------------------ 2b. signature shapes the cache wrapper once could not pass on
     for pname, (w, sig, what) in probe_worlds().items():
         simdir = run.subdir("probe-" + pname)
-        run.tlc("MC_Cache", cfg([], ["render"], STRICT), name="probe-" + pname, workers=1, simulate="file=%s/tr,num=1" % simdir, depth=3,
+        # (the code-shaped model, like every other replayed world: its cache ids are the module-id spelling of the URI)
+        _tlc(run, "MC_Cache", cfg(DEVS, ["render"], WEAK), name="probe-" + pname, workers=1, simulate="file=%s/tr,num=1" % simdir, depth=3,
                 timeout=300, count=False, extra_files={"CacheProgs.tla": progs_module([w])})
         states = [st for _, st in core.parse_simulate_file(os.path.join(simdir, sorted(os.listdir(simdir))[0]))]
         mm = replay_behaviour(states, w, "rec", next_hid(), run.scratch)
@@ -1125,7 +1155,7 @@ def check(run):
         ops = ALL_OPS if profile == "rec" else [o for o in ALL_OPS if o != "set"]
         num = nworlds * per
         simdir = run.subdir("simtr-" + profile)
-        run.tlc("MC_Cache", cfg(DEVS, ops, WEAK), name="sim-" + profile, workers=1, simulate="file=%s/tr,num=%d" % (simdir, num),
+        _tlc(run, "MC_Cache", cfg(DEVS, ops, WEAK), name="sim-" + profile, workers=1, simulate="file=%s/tr,num=%d" % (simdir, num),
                 depth=30, timeout=900, count=False, extra_files={"CacheProgs.tla": progs_module(worlds)})
         files = sorted(os.listdir(simdir))
         if len(files) < num:
@@ -1256,11 +1286,16 @@ def check(run):
             "exhaustive": False}
 
 
+def _tlc(run, module, cfg_text, **kw):
+    kw.setdefault("heap", HEAP)
+    return run.tlc(module, cfg_text, **kw)
+
+
 def _validate(run, traces, worlds, name, thorough):
     """run.validate_traces with the worlds module added (core.validate_traces has no extra_files)."""
     if not traces:
         return {}
-    res = run.tlc("Trace_Cache", trace_cfg(), name=name, workers=16 if thorough else 8, timeout=1500,
+    res = _tlc(run, "Trace_Cache", trace_cfg(), name=name, workers=16 if thorough else 8, timeout=1500,
                   env={"TRACE_FILE": "traces.json"},
                   extra_files={"traces.json": json.dumps(traces), "CacheProgs.tla": progs_module(worlds)}, expect_ok=False, count=False)
     verdicts = {}
